@@ -11,16 +11,27 @@ EXTENDS Integers, Sequences, FiniteSets, TLC
 IsPrefix(p, s) == Len(p) <= Len(s) /\ SubSeq(s, 1, Len(p)) = p
 
 \* how NewServer registers a mux pattern: the prefix without trailing slash, as a subtree
-MountEntry(pat) == [segs |-> pat.segs, slash |-> TRUE, kind |-> "mux", tag |-> ""]
-ExtraEntry(pat, tag) == [segs |-> pat.segs, slash |-> pat.slash, kind |-> "extra", tag |-> tag]
+MountEntry(pat) == [segs |-> pat.segs, slash |-> TRUE, kind |-> "mux", tag |-> "", host |-> "", meth |-> ""]
+\* an extra handler's pattern may name a host and a method ("GET admin.test/debug/", Go 1.22 ServeMux patterns)
+ExtraEntry(e) == [segs |-> e.pat.segs, slash |-> e.pat.slash, kind |-> "extra", tag |-> e.tag, host |-> e.host, meth |-> e.meth]
 
 \* ServeMux: a subtree pattern ("/a/") matches every path below it, an exact pattern only itself
-Matches(en, path) == IF en.slash THEN IsPrefix(en.segs, path) /\ (Len(path) > Len(en.segs) \/ en.segs = <<>>)
-                     ELSE path = en.segs
-Selected(entries, path) ==
-  LET ms == {en \in entries : Matches(en, path)} IN
-  IF ms = {} THEN [kind |-> "none", segs |-> <<>>, slash |-> FALSE, tag |-> ""]
-  ELSE CHOOSE en \in ms : \A e2 \in ms : Len(en.segs) >= Len(e2.segs)
+\* A request is [path, host, meth].
+PathMatches(en, path) == IF en.slash THEN IsPrefix(en.segs, path) /\ (Len(path) > Len(en.segs) \/ en.segs = <<>>)
+                         ELSE path = en.segs
+HostMatches(en, rq) == en.host = "" \/ en.host = rq.host
+Matches(en, rq) == PathMatches(en, rq.path) /\ HostMatches(en, rq) /\ (en.meth = "" \/ en.meth = rq.meth)
+\* precedence among the matching patterns: patterns naming the host first, then the longest path, then the one
+\* naming the method
+Rank(en) == <<IF en.host # "" THEN 1 ELSE 0, Len(en.segs), IF en.meth # "" THEN 1 ELSE 0>>
+Before(a, b) == \/ a[1] > b[1] \/ (a[1] = b[1] /\ a[2] > b[2]) \/ (a[1] = b[1] /\ a[2] = b[2] /\ a[3] >= b[3])
+None == [kind |-> "none", segs |-> <<>>, slash |-> FALSE, tag |-> "", host |-> "", meth |-> ""]
+Selected(entries, rq) ==
+  LET ms == {en \in entries : Matches(en, rq)} IN
+  IF ms = {} THEN None
+  ELSE CHOOSE en \in ms : \A e2 \in ms : Before(Rank(en), Rank(e2))
+\* what ServeMux answers itself when nothing matches: 405 when only the method stands in the way, else 404
+OwnAnswer(entries, rq) == IF \E en \in entries : PathMatches(en, rq.path) /\ HostMatches(en, rq) THEN "servemux405" ELSE "servemux404"
 
 \* exploration for the design check: nested mounts never shadow an extra handler on a disjoint pattern, etc.
 CONSTANTS Pats, Extras, Paths
@@ -30,13 +41,17 @@ NoDup(ms) == \A a, b \in ms : a.segs = b.segs => a = b
 Init == /\ mounts \in {ms \in SUBSET Pats : ms # {} /\ Cardinality(ms) <= 3 /\ NoDup(ms)} /\ req \in Paths
 Next == UNCHANGED mvars
 Spec == Init /\ [][Next]_mvars
-Entries(ms) == {MountEntry(p) : p \in ms} \cup {ExtraEntry(e.pat, e.tag) : e \in Extras}
+Entries(ms) == {MountEntry(p) : p \in ms} \cup {ExtraEntry(e) : e \in Extras}
 \* a path under a mount prefix reaches the mux unless a longer registered pattern owns it
 PrefixReachesMux ==
   LET sel == Selected(Entries(mounts), req) IN
-  (\E m \in mounts : IsPrefix(m.segs, req) /\ Len(req) > Len(m.segs)) => sel.kind \in {"mux", "extra"}
+  (\E m \in mounts : IsPrefix(m.segs, req.path) /\ Len(req.path) > Len(m.segs)) => sel.kind \in {"mux", "extra"}
 \* extra handlers keep their own patterns whenever no mount is at least as specific
 ExtraKept ==
-  \A e \in Extras : Matches(ExtraEntry(e.pat, e.tag), req) /\ (\A m \in mounts : Len(m.segs) < Len(e.pat.segs))
+  \A e \in Extras : Matches(ExtraEntry(e), req) /\ (\A m \in mounts : Len(m.segs) < Len(e.pat.segs))
                     => Selected(Entries(mounts), req).kind = "extra"
+\* a host- or method-qualified extra pattern never takes a request of another host / method away from the mux
+QualifiedExtraIsNarrow ==
+  LET sel == Selected(Entries(mounts), req) IN
+  sel.kind = "extra" => (sel.host \in {"", req.host} /\ sel.meth \in {"", req.meth})
 =============================================================================
